@@ -1444,3 +1444,16 @@ Example po_ex_one_sided :
                 po_body_ops true [OAdd "/status" (JObj [("y", JNum 2)])] = [] /\
                 po_status_ops true [OAdd "/metadata/finalizers" (JList [JStr "fin"])] = [].
 Proof. cbv zeta. eexists. split; [vm_compute; reflexivity|]. repeat split; discriminate. Qed.
+
+(* ---------- the merge-patch requests do not depend on the body the patch was accumulated against ---------- *)
+(* whatever the handled body [orig] says (e.g. that a field already has the value the patch sets), whatever the transformations and the
+   server: when nothing is refused, the merge-patch requests are the split of the accumulated patch, field for field *)
+Corollary po_merges_irrespective_of_body S serve diff has_sub patch fns fns' orig orig' (s0 s0' : S) :
+  let r := patch_obj S serve diff has_sub patch fns orig s0 in
+  let r' := patch_obj S serve diff has_sub patch fns' orig' s0' in
+  po_all_ok (r_log r) = true -> po_all_ok (r_log r') = true ->
+  filter (fun q => negb (po_is_json q)) (map fst (r_log r)) = filter (fun q => negb (po_is_json q)) (map fst (r_log r')).
+Proof.
+  intros r r' H H'. unfold r, r'.
+  rewrite (po_merges_sent S serve diff has_sub patch fns orig s0 H), (po_merges_sent S serve diff has_sub patch fns' orig' s0' H'). reflexivity.
+Qed.
